@@ -358,6 +358,20 @@ fn main() {
             check_circle(ctx, pos(rng), d);
             ctx.count("circles_beyond_513_px", 1);
         });
+        // ellipses with both axes between 100 and 600 px (the products of the squared axes pass 2^31 and
+        // 2^32 inside this window; seeded `C18-14`: a 32-bit fast path for axes below 256 whose *sum* of two
+        // products overflows from about 182 x 255)
+        let nmid = run.tier(64u64, 6000u64);
+        run.generate("ellipses-both-axes-100-to-600", nmid, false, 0.2, |ctx, idx, rng| {
+            let (w, h) = match idx % 4 {
+                0 => (rng.u32r(170, 260), rng.u32r(170, 260)),
+                1 => (rng.u32r(100, 300), rng.u32r(100, 300)),
+                2 => (*rng.pick(&[181u32, 182, 215, 216, 254, 255, 256, 257]), *rng.pick(&[181u32, 182, 215, 216, 254, 255, 256, 257])),
+                _ => (rng.u32r(100, 600), rng.u32r(100, 600)),
+            };
+            check_ellipse(ctx, pos(rng), w, h);
+            ctx.count("ellipses_with_both_axes_beyond_100_px", 1);
+        });
         let emax = run.tier(32u64, 100u64);
         run.generate("ellipses", (emax + 1) * (emax + 1), true, 0.25, |ctx, idx, rng| check_ellipse(ctx, pos(rng), (idx % (emax + 1)) as u32, (idx / (emax + 1)) as u32));
         run.generate("rounded-equal-radii", 13 * 13 * 8 * 8, true, 0.2, |ctx, idx, rng| {
